@@ -78,7 +78,7 @@ func scenarios(tier string) []scenario {
 			Name:   "transfer+contract-call/reorg-depth-2",
 			Prefix: []ops.Op{{K: "T", A: 0, B: 1, V: 500}, M},
 			A:      []ops.Op{{K: "Call", S: "stake", A: 1, V: 10}, M, {K: "R", A: 1}, M},
-			B:      []ops.Op{{K: "T", A: 2, B: 3, V: 7}, {K: "M", V: 1}, M, {K: "Call", S: "garbage", A: 2, B: 0, V: 3}, M},
+			B:      []ops.Op{{K: "T", A: 2, B: 3, V: 7}, {K: "M", V: 1}, M, {K: "Call", S: "refund", A: 5}, M},
 		},
 		{
 			Name:   "empty-momentums/reorg-depth-1",
@@ -91,7 +91,7 @@ func scenarios(tier string) []scenario {
 		Name:   "fuse+delegate+refund/reorg-depth-3",
 		Prefix: []ops.Op{{K: "Call", S: "fuse", A: 0, B: 1, V: 50}, M, M},
 		A:      []ops.Op{{K: "Call", S: "delegate", A: 3, B: 2}, M, {K: "T", A: 1, B: 0, T: 1, V: 9}, M, {K: "R", A: 0}, M},
-		B:      []ops.Op{{K: "Call", S: "stake-qsr", A: 4, V: 3}, {K: "M", V: 2}, M, {K: "T", A: 5, B: 6, V: 1}, M, M},
+		B:      []ops.Op{{K: "Call", S: "refund", A: 6}, {K: "M", V: 2}, M, {K: "T", A: 5, B: 6, V: 1}, M, M},
 	})
 	if tier == "thorough" {
 		sc = append(sc, scenario{
